@@ -1050,6 +1050,9 @@ func main() {
 			[]string{"notifyDeletion", "notifyAtomicDeletion", "makeRetired", "makeDead", "deleteNodeFromMap", "afterDelete", "afterWriteTask", "getTask", "putTask",
 				"afterWrite", "afterRead", "atomicSet", "atomicDelete", "calcExpiresAtAfterRead",
 				"Compute", "delete", "Delete", "Add", "add", "update", "RecordEviction", "Retire", "Die", "executor", "onDeletion", "onAtomicDeletion"}},
+		// the eviction decision: which node is compared with which, where the sketch is consulted (C18, C04)
+		{ot, []string{"policy.evictFromMain", "policy.evictFromWindow", "policy.evictNodes", "policy.admit"},
+			[]string{"admit", "frequency", "evictNode", "evictFromMain", "evictFromWindow", "rand", "makeDead", "IsDead", "IsAlive"}},
 		// persistence: where the clock is read and what is done per entry (C19)
 		{ot, []string{"LoadCacheFrom", "SaveCacheTo"},
 			[]string{"NowNano", "Decode", "Encode", "Set", "SetExpiresAfter", "SetRefreshableAfter", "GetEntryQuietly", "GetIfPresent", "Coldest", "Hottest", "GetMaximum", "WeightedSize", "IsWeighted"}},
